@@ -84,8 +84,11 @@ def work_config(args):
                 calls.append([p.node_name for p in peers])
                 return peers[-1]
             nw.node.peer_route_select_func = cb
-        for app_i, realmkey in itertools.product(range(len(cfg["apps"])), ("own", "r2", "r3", "foreign")):
-            realm = {"own": env.NODE_REALM, "r2": REALM2, "r3": REALM3, "foreign": "nowhere.example"}[realmkey]
+        sends = list(itertools.product(range(len(cfg["apps"])), ("own", "r2", "r3", "foreign")))
+        # ... and requests that name one of the configured peers in Destination-Host (which does not widen what is eligible)
+        sends += [(a, f"{rk}>{k}") for a in range(len(cfg["apps"])) for rk in ("own", "r2") for k in range(len(states))]
+        for app_i, realmkey in sends:
+            realm = {"own": env.NODE_REALM, "r2": REALM2, "r3": REALM3, "foreign": "nowhere.example"}[realmkey.split(">")[0]]
             n += 1
             before = {i: len(s.out) for i, s in by_peer.items()}
             ncalls = len(calls)
@@ -298,6 +301,14 @@ def check_b(obs):
         elif owner != appids[app_i] or sent_idx.get((hbh, e2e), app_i) != app_i:
             vs.append(("unexpected-answer:delivered-to-another-application-than-the-sender",
                        f"{variant}: request of application {sent_idx.get((hbh, e2e))} (id {owner}) shown to application {app_i}"))
+    # an answer that arrives after its sender has given up is an answer nobody waits for: it is passed to the unexpected-answer
+    # handler of the application that sent the request
+    if first_late:
+        timed_out = [r for r in results if r[2] == "TimeoutError" and len(r) > 4 and r[4]]
+        for r in timed_out:
+            if not any((hbh, e2e) == tuple(r[4]) and app_i == r[0] for app_i, hbh, e2e in handle):
+                vs.append(("unexpected-answer:late-answer-not-passed-to-the-sender's-handle_answer",
+                           f"{variant}: request {tuple(r[4])} of application {r[0]} timed out, its answer arrived 3 s later; handle_answer calls: {handle}"))
     if fails:
         vs.append(("send-request:thread-died", f"{variant}: {fails}"))
     return vs
